@@ -79,4 +79,8 @@ W_DiiKeeps     == ~(last.call.op = "dii" /\ BadVal(last.call) /\ st.obj[last.cal
 DumpPath == PrintT("PATH " \o ToJson(path))
 DumpCalls == PrintT("CALLS " \o ToJson(Calls))
 DumpCallsAtInit == path # <<>> \/ DumpCalls
+
+\* tlc -simulate: print each random behaviour once it is SimDepth calls long
+SimDepth == 150
+DumpLongPath == Len(path) < SimDepth \/ PrintT("PATH " \o ToJson(path))
 =============================================================================
